@@ -356,6 +356,11 @@ func (db *MultiBucketBackend) HeadObject(bucketName, objectName string) (*gofake
 
 	fullPath := path.Join(bucketName, objectName)
 
+	if objectInTheWay(db.bucketFs, bucketName, path.Dir(fullPath)) {
+		// The key lies below an object, not below a directory: it was never stored
+		return nil, gofakes3.KeyNotFound(objectName)
+	}
+
 	stat, err := db.bucketFs.Stat(filepath.FromSlash(fullPath))
 	if os.IsNotExist(err) {
 		return nil, gofakes3.KeyNotFound(objectName)
@@ -398,6 +403,11 @@ func (db *MultiBucketBackend) GetObject(bucketName, objectName string, rangeRequ
 	}
 
 	fullPath := path.Join(bucketName, objectName)
+
+	if objectInTheWay(db.bucketFs, bucketName, path.Dir(fullPath)) {
+		// The key lies below an object, not below a directory: it was never stored
+		return nil, gofakes3.KeyNotFound(objectName)
+	}
 
 	f, err := db.bucketFs.Open(filepath.FromSlash(fullPath))
 	if os.IsNotExist(err) {
@@ -590,6 +600,10 @@ func (db *MultiBucketBackend) deleteObjectLocked(bucketName, objectName string) 
 
 	if stat, err := db.bucketFs.Stat(filepath.FromSlash(fullPath)); err == nil && stat.IsDir() {
 		// A directory is not an object; the keys below it are not this key:
+		return nil
+	}
+	if objectInTheWay(db.bucketFs, bucketName, path.Dir(fullPath)) {
+		// Nor can a key be stored below an object:
 		return nil
 	}
 
